@@ -261,6 +261,12 @@ func ruleSeqSingleAllocator(c *Ctx, r *Report) {
 		r.Check(ok, rule, key, c.ipos(st.Instr), "slice only grown with zero counters / cloned from the same field", "sequence-counter slice replaced by a value not grown from itself with zeros: "+c.describeAll(ls))
 	}
 	for _, u := range c.AddrUses(owner, field) {
+		// handed to a helper of the module that reads the slice through the pointer and stores
+		// nothing but that slice grown by zeros: the same growth, written once
+		if n, ok := c.ptrGrowOnly(u.Instr, true); ok {
+			r.OK(rule, short(u.Fn)+":grown-by-helper", c.ipos(u.Instr), fmt.Sprintf("address handed to a helper that only grows the slice with zero counters (%d stores)", n))
+			continue
+		}
 		r.Bad(rule, short(u.Fn)+":addr-escape", c.ipos(u.Instr), "address of the counter slice escapes (untracked writer)")
 	}
 	r.Floor(rule, n, 6)
@@ -270,6 +276,9 @@ func ruleSeqSingleAllocator(c *Ctx, r *Report) {
 func appendedZeros(call *ssa.Call) bool {
 	if len(call.Call.Args) != 2 {
 		return false
+	}
+	if _, isMake := call.Call.Args[1].(*ssa.MakeSlice); isMake {
+		return true // append(x, make([]T, n)...): n zero values
 	}
 	sl, ok := call.Call.Args[1].(*ssa.Slice)
 	if !ok {
@@ -688,4 +697,62 @@ func limitCmp(bo *ssa.BinOp) (x ssa.Value, limit int64, exceedsWhen bool, ok boo
 		return xv, k - 1, false, true
 	}
 	return nil, 0, false, false
+}
+
+// ptrGrowOnly: the instruction is a call that hands the address of a slice to a module function
+// whose pointer parameter is used for nothing but loads and stores of that slice extended
+// (keepsPrefix; with zerosOnly every append adds constant zeros or a fresh make). Returns the
+// number of stores through the parameter.
+func (c *Ctx) ptrGrowOnly(in ssa.Instruction, zerosOnly bool) (int, bool) {
+	call, ok := in.(*ssa.Call)
+	if !ok {
+		return 0, false
+	}
+	g := call.Call.StaticCallee()
+	if g == nil || !inModule(g) || len(g.Blocks) == 0 {
+		return 0, false
+	}
+	n := 0
+	matched := false
+	for i, a := range call.Call.Args {
+		if _, isFA := a.(*ssa.FieldAddr); !isFA || i >= len(g.Params) {
+			continue
+		}
+		if _, isPtr := a.Type().Underlying().(*types.Pointer); !isPtr {
+			continue
+		}
+		if _, isSl := derefType(a.Type()).Underlying().(*types.Slice); !isSl {
+			continue
+		}
+		p := g.Params[i]
+		matched = true
+		isOld := func(v ssa.Value) bool {
+			u, ok := v.(*ssa.UnOp)
+			return ok && u.Op == token.MUL && u.X == ssa.Value(p)
+		}
+		for _, ref := range *p.Referrers() {
+			switch x := ref.(type) {
+			case *ssa.UnOp:
+				if x.Op != token.MUL {
+					return 0, false
+				}
+			case *ssa.DebugRef:
+			case *ssa.Store:
+				if x.Addr != ssa.Value(p) || !keepsPrefix(c, x.Val, isOld, 0, map[ssa.Value]bool{}) {
+					return 0, false
+				}
+				if zerosOnly {
+					for _, l := range c.Origins(x.Val, 0) {
+						if ap, isAp := l.(*ssa.Call); isAp && calleeName(&ap.Call) == "builtin:append" && !appendedZeros(ap) {
+							return 0, false
+						}
+					}
+				}
+				n++
+			default:
+				return 0, false
+			}
+		}
+	}
+	return n, matched
 }
